@@ -188,6 +188,18 @@ func (c *FnCtx) runTop(rep *FnReport, kf *KnownFindings) (err error) {
 		fr.vals[p] = v
 		args = append(args, v)
 	}
+	// function values of different (non-identical) function types are different values
+	for i, p := range fn.Params {
+		si, ok := p.Type().Underlying().(*types.Signature)
+		if !ok {
+			continue
+		}
+		for j := i + 1; j < len(fn.Params); j++ {
+			if sj, ok := fn.Params[j].Type().Underlying().(*types.Signature); ok && !types.Identical(si, sj) {
+				c.sc.Assume("(=> (not (= " + args[i].E + " 0)) (not (= " + args[i].E + " " + args[j].E + ")))")
+			}
+		}
+	}
 	for k, fv := range fn.FreeVars {
 		// verifying a closure on its own: captured variables are arbitrary cells
 		v := c.fresh("free$"+fv.Name(), fv.Type(), st)
@@ -276,12 +288,15 @@ func (c *FnCtx) runTop(rep *FnReport, kf *KnownFindings) (err error) {
 		if en.Mode != "" && en.Mode != c.mode {
 			continue
 		}
+		if en.Mode == "" && c.mode == "INT" && spec.Mode == "BOTH" {
+			continue // in a contract verified in both modes, untagged postconditions are the sequential ones
+		}
 		g := c.evalBool(penv, en.E)
 		o := c.obligation(rst, "post", clauseName(en, k), g, fn.Pos())
 		o.Desc = "postcondition: " + en.Text
 	}
 	c.eng.ghostExit(c, fr, rst, penv)
-	if spec.HasMod {
+	if spec.HasMod && !(c.mode == "INT" && spec.Mode == "BOTH") {
 		c.frameCheck(fr, rst)
 	}
 	end := c.obligation(rst, "vacuity", "return-reachable", "true", fn.Pos())
